@@ -718,6 +718,7 @@ func rulesC16(w *World, r *Report) {
 		}
 	}
 	r.floor("C16.R3 nameMap updates", nP, 3)
+	w.ruleExtractionStateless(r, "C16.R5 extraction is a function of its argument")
 }
 
 // ruleWalkVisitsAll: every loop of the value walk that recurses leaves only
@@ -842,6 +843,7 @@ func rulesC09(w *World, r *Report) {
 	w.ruleWrapperForwards(r, "C09.R1 read wrappers forward the decoder", "string")
 	w.ruleWrapperForwards(r, "C09.R1 read wrappers forward the decoder", "binary")
 	w.ruleChunkBuffers(r, "C09.R2 chunk buffers sized per chunk")
+	w.ruleDecodedBytesFresh(r, "C09.R4 a decoded byte array owns its memory")
 	// R3 is generated because the encoder has an N form for a present value
 	c := w.codecs()["string"]
 	hasN := false
@@ -867,4 +869,33 @@ func rulesC09(w *World, r *Report) {
 		r.note("the string encoder has no N form: R3 generates no obligations")
 	}
 	r.note("spec table digest %s", specDigest())
+}
+
+// ruleDecodedBytesFresh: the []byte the binary decoder returns is allocated in
+// that call (a slice it made, or the bytes of a buffer it created).  A result
+// that aliases a pooled or retained buffer is overwritten by the next binary
+// that is decoded — in the same message (two []byte fields) or a later one.
+func (w *World) ruleDecodedBytesFresh(r *Report, rule string) {
+	c := w.codecs()["binary"]
+	if c == nil || c.Dec == nil {
+		r.undecided(rule, "binary decoder", "-", "not found")
+		return
+	}
+	n := 0
+	fns := []*ssa.Function{c.Dec}
+	if c.Wrap != nil {
+		fns = append(fns, c.Wrap)
+	}
+	for _, fn := range fns {
+		for _, b := range fn.Blocks {
+			ret, ok := b.Instrs[len(b.Instrs)-1].(*ssa.Return)
+			if !ok || len(ret.Results) == 0 || isNilConst(ret.Results[0]) || !isByteSlice(ret.Results[0].Type()) {
+				continue
+			}
+			n++
+			ok2, fact := w.freshBytes(ret.Results[0], fn, 0)
+			r.add(rule, fmt.Sprintf("%s · returned bytes #%d", fnName(fn), n), w.instrPos(ret), ok2, fact)
+		}
+	}
+	r.floor(rule, n, 1)
 }
